@@ -41,7 +41,7 @@ FORCE_INLINE = {
 
 
 def is_reference(fn: FunctionInfo) -> bool:
-    return fn.fq in REFERENCE
+    return fn.fq in REFERENCE or fn.fq in MOVED
 
 
 # -- return handling -------------------------------------------------------------
@@ -593,6 +593,69 @@ def _private_self_attrs(ci) -> set[str]:
     return out
 
 
+REFERENCE_SIGS: dict[str, list[str]] = json.loads(
+    (Path(__file__).parent / "reference_functions.json").read_text()
+).get("signatures", {})
+# functions of the current tree that ARE reference functions under another
+# name / in another module (filled by normalise_function_renames)
+MOVED: dict[str, str] = {}
+
+
+def normalise_function_renames(repo: Repo) -> list[str]:
+    """A reference function that vanished while exactly one new function with
+    the same parameter list appeared in the same scope is a rename: the new
+    name is mapped back everywhere. One that re-appeared under the same name
+    and parameter list in another module is a move: it keeps its reference
+    status (never inlined) and the old module-qualified name finds it."""
+    log: list[str] = []
+    MOVED.clear()
+    cur = {f.fq: f for f in repo.all_functions(hand_written=True)
+           if not isinstance(f.node, ast.Lambda)}
+    vanished = [fq for fq in REFERENCE_SIGS if fq not in cur]
+    if not vanished:
+        return log
+    new = [f for fq, f in cur.items() if fq not in REFERENCE]
+    ref_names = {fq.split(":")[1].rsplit(".", 1)[-1] for fq in REFERENCE_SIGS}
+
+    def scope_of(q: str) -> str:
+        return q.rsplit(".", 1)[0] if "." in q else ""
+
+    taken: set[str] = set()
+    renames: dict[str, str] = {}
+    for v in vanished:
+        mod, qual = v.split(":")
+        old_name = qual.rsplit(".", 1)[-1]
+        same = [f for f in new if f.module.name == mod and
+                scope_of(f.qualname) == scope_of(qual) and
+                f.params() == REFERENCE_SIGS[v] and f.fq not in taken]
+        if len(same) == 1 and same[0].name not in ref_names and \
+                same[0].name not in renames:
+            taken.add(same[0].fq)
+            renames[same[0].name] = old_name
+            log.append(f"function {same[0].fq} read as {old_name} (renamed)")
+            continue
+        moved = [f for f in new if f.module.name != mod and
+                 f.name == old_name and f.params() == REFERENCE_SIGS[v] and
+                 f.fq not in taken]
+        if len(moved) == 1:
+            taken.add(moved[0].fq)
+            MOVED[moved[0].fq] = v
+            log.append(f"function {v} found as {moved[0].fq} (moved)")
+    if renames:
+        for m in repo.hand_written():
+            for n in ast.walk(m.tree):
+                if isinstance(n, (ast.FunctionDef, ast.AsyncFunctionDef)) and \
+                        n.name in renames:
+                    n.name = renames[n.name]
+                elif isinstance(n, ast.Attribute) and n.attr in renames:
+                    n.attr = renames[n.attr]
+                elif isinstance(n, ast.Name) and n.id in renames:
+                    n.id = renames[n.id]
+                elif isinstance(n, ast.alias) and n.name in renames:
+                    n.name = renames[n.name]
+    return log
+
+
 def normalise_renames(repo: Repo) -> list[str]:
     """A private attribute of a reference class that vanished while exactly
     one new private attribute appeared in that class is a rename: the new
@@ -702,7 +765,8 @@ def normalise_namedtuples(repo: Repo) -> list[str]:
 def normalise(repo: Repo, resolver_factory, max_rounds: int = 3):
     """Return (repo', log): repo with non-reference helpers inlined."""
     log: list[str] = []
-    rlog = normalise_renames(repo) + normalise_namedtuples(repo)
+    rlog = normalise_function_renames(repo) + normalise_renames(repo) + \
+        normalise_namedtuples(repo)
     if rlog:
         log += rlog
         repo = Repo(root=repo.root, overlay=repo.overlay, trees={
